@@ -89,7 +89,7 @@ def drive(mod, tier, seed):
             ev["result_d"] = jsonify.digest(res)
         evs.append(ev)
 
-    K = 4 if tier == "quick" else 12
+    K = 6 if tier == "quick" else 14
     for cfg in pick_configs(ad, tier):
         env = ad.make(cfg)
         name = f"{ad.name}/{cfg['id']}"
@@ -111,19 +111,29 @@ def drive(mod, tier, seed):
                 ch = changed_leaves(state, nstate)
                 rew = float(np.abs(np.asarray(nts.reward)).sum())
                 last = int(np.asarray(nts.step_type)) == 2
-                trans.append((2 * (rew != 0) + 2 * last + len(ch), tuple(ch), last, rew != 0, state, a))
+                trans.append((2 * (rew != 0) + 2 * last + len(ch), tuple(ch), last, rew != 0, state, a, ep))
                 state, ts = nstate, nts
                 if last:
                     break
-        # top-K by eventfulness, at most two per signature (which leaves changed, rewarded, last)
+        # top-K by eventfulness, at most two per signature (which leaves changed, rewarded, last); episodes are visited
+        # round-robin (each was played by another policy: collision-seeking, solving, stalling ...) so that every policy's
+        # most eventful transition is among the replayed ones
         trans.sort(key=lambda t: -t[0])
-        chosen, per_sig = [], {}
+        by_ep = {}
         for t in trans:
+            by_ep.setdefault(t[6], []).append(t)
+        order = []
+        while any(by_ep.values()):
+            for ep in sorted(by_ep):
+                if by_ep[ep]:
+                    order.append(by_ep[ep].pop(0))
+        chosen, per_sig = [], {}
+        for t in order:
             sig = (t[1], t[2], t[3])
             if per_sig.get(sig, 0) >= 2:
                 continue
             per_sig[sig] = per_sig.get(sig, 0) + 1
-            chosen.append(t)
+            chosen.append(t[:6])
             if len(chosen) >= K:
                 break
         # the same eventful transitions as one batch under vmap (lane j must equal the jitted single call)
